@@ -374,49 +374,63 @@ def check_replace(P, E, ctx):
 
 
 def tree_pred_copy_extent(P, fn, g, mc):
-    """the byte copies from the predecessor node into the removed node cover exactly the payload
-    [3W, 3W + H + ksize + H + vsize), same offsets on both sides. True or a reason."""
-    N = util.Norm(P, fn, expand_locals=False)
-    ivs = []
-    bases = set()
-    for n in mc:
-        for c in ir.calls(n['expr']):
-            if ir.callee_name(c) != 'memcpy':
-                continue
-            d, s_, ln = (N.canon(a) for a in c[2])
-
-            def split(e):
-                # e = base_local + offset  -> (base, Poly offset)
-                locs = [x for x in ir.walk(e) if x[0] == 'local']
-                if len(set(locs)) != 1:
-                    return None, None
-                b = locs[0]
-                off = poly.from_expr(e) - poly.Poly.atom(b[1])
-                if b[1] in off.atoms():
-                    return None, None
-                return b, off
-            db, doff = split(d)
-            sb, soff = split(s_)
-            if db is None or sb is None:
-                return 'copy operands are not node + offset'
-            if doff != soff:
-                return 'destination offset %r differs from source offset %r' % (doff, soff)
-            bases.add((db, sb))
-            ivs.append((doff, doff + poly.from_expr(ln)))
-    if len(bases) != 1:
-        return 'copies do not all go from the predecessor node to the removed node'
-    want_lo = poly.Poly.const(24)
-    want_hi = poly.Poly.const(24) + poly.Poly.atom('H') + poly.Poly.atom('H') + poly.Poly.atom('arg0->ksize') + poly.Poly.atom('arg0->vsize')
-    cur = want_lo
-    remaining = list(ivs)
-    while remaining:
-        nxt = [iv for iv in remaining if iv[0] == cur]
-        if not nxt:
-            return 'copied bytes %s do not tile the payload [%r, %r)' % ([(repr(a), repr(b)) for a, b in ivs], want_lo, want_hi)
-        cur = nxt[0][1]
-        remaining.remove(nxt[0])
-    if cur != want_hi:
-        return 'copied bytes end at %r, the payload (both headers, key and value) ends at %r' % (cur, want_hi)
+    """the byte copies from the predecessor node into the removed node cover exactly the payload — from the key's header to the end of
+    the value, *where the accessors Tree_Key / Tree_Val place them* — at the same offsets on both sides.  The three arguments of each
+    memcpy are evaluated (cint) with the two nodes at concrete addresses, for several key / value sizes.  True or a reason."""
+    from . import cint, absmodel
+    HDR = 8 * len(P.records['Header']['fields']) if 'Header' in P.records else 24
+    calls = [c for n in mc for c in ir.calls(n['expr']) if ir.callee_name(c) == 'memcpy']
+    if not calls:
+        return 'no byte copy'
+    for ksize, vsize in ((8, 16), (24, 8), (5, 3), (40, 1)):
+        atoms = {('global', 'NULL'): 0}
+        for f, v in (('ktype', 8500), ('vtype', 8501), ('ksize', ksize), ('vsize', vsize), ('nitems', 3), ('root', 0)):
+            atoms[('elem', 'self', 0, f)] = v
+        ivs = []
+        pair = None
+        for c in calls:
+            locs = []
+            for a_ in c[2][:2]:
+                ls = []
+                for x in ir.walk(a_):
+                    if x[0] == 'local' and x[2] not in ls:
+                        ls.append(x[2])
+                locs.append(ls)
+            if len(locs[0]) != 1 or len(locs[1]) != 1 or locs[0] == locs[1]:
+                return 'copy operands are not (one node) + offset each'
+            D, S = 100000, 200000
+            it = cint.CInt(P, fn, atoms=atoms, recurse=True, strict=True)
+            it.atoms = atoms
+            it.params = {0: absmodel.SELF}
+            it.locals = {locs[0][0]: D, locs[1][0]: S}
+            for lid, d in util.single_defs(fn).items():         # `struct Tree* m = self;`
+                if ir.top_nocast(d) == ('param', fn['params'][0][0], 0):
+                    it.locals[lid] = absmodel.SELF
+            try:
+                d_, s_, n_ = (it.ev(x) for x in c[2])
+            except cint.NoEval as x:
+                return 'copy operands not evaluable: %s' % x
+            if not all(isinstance(v, int) for v in (d_, s_, n_)):
+                return 'copy operands not evaluable'
+            if d_ - D != s_ - S:
+                return 'destination offset %d differs from source offset %d' % (d_ - D, s_ - S)
+            if pair is not None and pair != (locs[0][0], locs[1][0]):
+                return 'copies do not all go from the predecessor node to the removed node'
+            pair = (locs[0][0], locs[1][0])
+            ivs.append((d_ - D, d_ - D + n_))
+        key = absmodel.sub(P, 'Tree_Key', [absmodel.SELF, 100000], atoms) - 100000
+        val = absmodel.sub(P, 'Tree_Val', [absmodel.SELF, 100000], atoms) - 100000
+        want_lo, want_hi = key - HDR, val + vsize
+        covered = set()
+        for lo, hi in ivs:
+            covered |= set(range(lo, hi))
+        need = set(range(key - HDR, key + ksize)) | set(range(val - HDR, val + vsize))
+        if not need <= covered:
+            miss = sorted(need - covered)
+            return 'key size %d, value size %d: the copies cover bytes %s of the node; the key with its header lies at %d..%d and the value with its header at %d..%d (bytes from %d are not copied)' % (
+                ksize, vsize, sorted(ivs), key - HDR, key + ksize, val - HDR, val + vsize, miss[0])
+        if covered and (min(covered) < want_lo or max(covered) >= want_hi):
+            return 'key size %d, value size %d: the copies cover bytes %s of the node, the payload is %d..%d (links or the next block are overwritten)' % (ksize, vsize, sorted(ivs), want_lo, want_hi)
     return True
 
 
